@@ -3,6 +3,8 @@ CONSTANTS
  Endpoints = {"a", "b", "c"}
  OptSets = {1, 2, 3, 6, 7, 8}
  MaxRpc = 2
+ MaxSever = 1
+ Ticks = {}
 INIT Init
 NEXT Next
 VIEW View
